@@ -21,13 +21,16 @@ var outerDataStructs []*core_domain.CodeDataStruct // classes enclosing currentD
 var debug = false
 var output io.Writer
 var hasEnterMember = false
-var funcdefDepth = 0 // number of enclosing defs (Enter/ExitFuncdef keep it balanced)
+var funcdefDepth = 0 // number of enclosing defs inside the current class (Enter/ExitFuncdef keep it balanced)
+var outerFuncdefDepths []int // funcdefDepth of the classes enclosing currentDataStruct
 
 func NewPythonIdentListener(fileName string) *PythonIdentListener {
 	currentCodeFile = &core_domain.CodeContainer{}
 	currentCodeFile.FullName = fileName
 	currentDataStruct = nil
 	outerDataStructs = nil
+	funcdefDepth = 0
+	outerFuncdefDepths = nil
 	output = os.Stdout
 
 	return &PythonIdentListener{}
@@ -91,6 +94,9 @@ func (s *PythonIdentListener) EnterClassdef(ctx *parser.ClassdefContext) {
 
 	outerDataStructs = append(outerDataStructs, currentDataStruct)
 	currentDataStruct = dataStruct
+	// the defs written directly in a class are its methods, also when the class sits inside a def
+	outerFuncdefDepths = append(outerFuncdefDepths, funcdefDepth)
+	funcdefDepth = 0
 }
 
 func (s *PythonIdentListener) ExitClassdef(ctx *parser.ClassdefContext) {
@@ -99,6 +105,8 @@ func (s *PythonIdentListener) ExitClassdef(ctx *parser.ClassdefContext) {
 	// back to the enclosing class (nil at module level)
 	currentDataStruct = outerDataStructs[len(outerDataStructs)-1]
 	outerDataStructs = outerDataStructs[:len(outerDataStructs)-1]
+	funcdefDepth = outerFuncdefDepths[len(outerFuncdefDepths)-1]
+	outerFuncdefDepths = outerFuncdefDepths[:len(outerFuncdefDepths)-1]
 }
 
 func (s *PythonIdentListener) EnterFuncdef(ctx *parser.FuncdefContext) {
